@@ -190,6 +190,9 @@ pub fn child_main(args: &[String]) -> i32 {
         return 2;
     }
     let want_tree = spec.get("want_tree").and_then(|x| x.as_bool()).unwrap_or(false);
+    let inode_check = spec.get("inode_check").and_then(|x| x.as_bool()).unwrap_or(false);
+    // C14 judges the `tree` only: hashing the whole checkpoint store before and after every step is skipped there
+    let root_manifest = spec.get("root_manifest").and_then(|x| x.as_bool()).unwrap_or(true);
     let steps: Vec<Value> = spec.get("steps").and_then(|x| x.as_array()).cloned().unwrap_or_default();
     let mut results: Vec<Value> = Vec::new();
     let t_start = Instant::now();
@@ -198,13 +201,17 @@ pub fn child_main(args: &[String]) -> i32 {
     let mut cached_root: Option<Manifest> = None;
     for (i, step) in steps.iter().enumerate() {
         let op = step.get("op").and_then(|x| x.as_str()).unwrap_or("");
-        let harness_op = matches!(op, "fs_write" | "fs_delete" | "fs_mkdir" | "fs_rmtree" | "mutate_sentinels" | "corrupt_cp");
+        let harness_op = matches!(
+            op,
+            "fs_write" | "fs_delete" | "fs_mkdir" | "fs_rmtree" | "mutate_sentinels" | "corrupt_cp" | "fs_append" | "fs_replace" | "plant_cp"
+        );
         let pre_out = match cached_out.take() {
             Some(m) => m,
             None => c.manifest_outside(),
         };
         let pre_root = match cached_root.take() {
             Some(m) => m,
+            None if !root_manifest => Manifest::new(),
             None => tree_manifest(&c.root),
         };
         let _ = std::fs::metadata(format!("/rv-marker/{i}/begin"));
@@ -213,7 +220,7 @@ pub fn child_main(args: &[String]) -> i32 {
         let exec_us = t_exec.elapsed().as_micros() as u64;
         let _ = std::fs::metadata(format!("/rv-marker/{i}/end"));
         let post_out = c.manifest_outside();
-        let post_root = tree_manifest(&c.root);
+        let post_root = if root_manifest { tree_manifest(&c.root) } else { Manifest::new() };
         let outside_diff = diff_manifest(&pre_out, &post_out);
         let root_diff = diff_manifest(&pre_root, &post_root);
         let mut hits: Vec<Value> = Vec::new();
@@ -277,6 +284,11 @@ pub fn child_main(args: &[String]) -> i32 {
         o.insert("output_excerpt".into(), json!(trunc(&text, 600)));
         if want_tree {
             o.insert("tree".into(), c.tree_json());
+        }
+        if inode_check {
+            let (shared, store_files) = c.store_shared_inodes();
+            o.insert("store_shared_inodes".into(), Value::Array(shared));
+            o.insert("store_files_checked".into(), json!(store_files));
         }
         results.push(Value::Object(o));
         let mut out_dirty = harness_op;
@@ -356,14 +368,34 @@ impl Child {
         }
     }
 
+    /// path -> [kind, sha256, len] of everything under the root except `.rip` (which is not even read)
     fn tree_json(&self) -> Value {
-        let mut m = Map::new();
-        for (p, (k, sha, len)) in tree_manifest(&self.root) {
-            if p == ".rip" || p.starts_with(".rip/") {
-                continue;
+        fn walk(base: &Path, p: &Path, m: &mut Map<String, Value>) {
+            let Ok(rd) = std::fs::read_dir(p) else {
+                return;
+            };
+            for e in rd.flatten() {
+                let path = e.path();
+                let rel = path.strip_prefix(base).unwrap_or(&path).to_string_lossy().to_string();
+                if rel == ".rip" {
+                    continue;
+                }
+                let Ok(md) = std::fs::symlink_metadata(&path) else {
+                    continue;
+                };
+                if md.is_dir() {
+                    m.insert(rel, json!(["d", "", 0]));
+                    walk(base, &path, m);
+                } else if md.is_file() {
+                    let bytes = std::fs::read(&path).unwrap_or_default();
+                    m.insert(rel, json!(["f", sha256_hex(&bytes), bytes.len() as u64]));
+                } else {
+                    m.insert(rel, json!(["o", "", 0]));
+                }
             }
-            m.insert(p, json!([k.to_string(), sha, len]));
         }
+        let mut m = Map::new();
+        walk(&self.root, &self.root, &mut m);
         Value::Object(m)
     }
 
@@ -556,7 +588,12 @@ impl Child {
         match op.as_str() {
             "tool" => {
                 let name = st("name");
-                let args = step.get("args").cloned().unwrap_or(json!({}));
+                let mut args = step.get("args").cloned().unwrap_or(json!({}));
+                // large contents travel as (seed, bytes) and are expanded here (same generator as the parent's model)
+                if let Some(g) = step.get("content_gen") {
+                    let bytes = gen_spec_bytes(g);
+                    args["content"] = json!(String::from_utf8_lossy(&bytes).to_string());
+                }
                 if driver == "router" {
                     let env = json!({"tool": name, "args": args, "timeout_ms": 20000}).to_string();
                     match self.router_input(env) {
@@ -736,12 +773,44 @@ impl Child {
                 if let Some(parent) = p.parent() {
                     let _ = std::fs::create_dir_all(parent);
                 }
-                let bytes = match step.get("hex").and_then(|x| x.as_str()) {
-                    Some(h) => hex::decode(h).unwrap_or_default(),
-                    None => st("text").into_bytes(),
+                let bytes = match (step.get("gen"), step.get("hex").and_then(|x| x.as_str())) {
+                    (Some(g), _) => gen_spec_bytes(g),
+                    (None, Some(h)) => hex::decode(h).unwrap_or_default(),
+                    (None, None) => st("text").into_bytes(),
                 };
+                // in place: truncates and rewrites the existing inode
                 out.ok = std::fs::write(&p, bytes).is_ok();
             }
+            "fs_append" => {
+                // external in-place edit that keeps the inode and the existing bytes
+                use std::io::Write;
+                let bytes = match step.get("gen") {
+                    Some(g) => gen_spec_bytes(g),
+                    None => st("text").into_bytes(),
+                };
+                out.ok = std::fs::OpenOptions::new()
+                    .append(true)
+                    .open(st("path"))
+                    .and_then(|mut f| f.write_all(&bytes))
+                    .is_ok();
+            }
+            "fs_replace" => {
+                // external edit that replaces the file by renaming a new one over it (new inode)
+                let p = PathBuf::from(st("path"));
+                let bytes = match step.get("gen") {
+                    Some(g) => gen_spec_bytes(g),
+                    None => st("text").into_bytes(),
+                };
+                if let Some(parent) = p.parent() {
+                    let _ = std::fs::create_dir_all(parent);
+                }
+                let tmp = p.with_file_name(format!(".rv-replace-{i}.tmp"));
+                out.ok = std::fs::write(&tmp, bytes).is_ok() && std::fs::rename(&tmp, &p).is_ok();
+                if !out.ok {
+                    let _ = std::fs::remove_file(&tmp);
+                }
+            }
+            "plant_cp" => self.plant_cp(i, step, &mut out),
             "fs_delete" => out.ok = std::fs::remove_file(st("path")).is_ok(),
             "fs_mkdir" => out.ok = std::fs::create_dir_all(st("path")).is_ok(),
             "fs_rmtree" => out.ok = std::fs::remove_dir_all(st("path")).is_ok(),
@@ -798,6 +867,164 @@ impl Child {
         out
     }
 
+    /// Plant a well-formed checkpoint manifest (and, where asked, stored copies) under the session's store directory:
+    /// the manifest goes through the system's own `write` tool (`via: "tool"`, a legal workspace-relative path) or
+    /// directly onto the disk. Stored copies are written by the harness at the LEXICAL resolution of
+    /// `<cp>/files/<path>` and only when that stays below `<root>/.rip` (the harness never follows a hostile path).
+    fn plant_cp(&mut self, i: usize, step: &Value, out: &mut StepOut) {
+        let st = |k: &str| step.get(k).and_then(|x| x.as_str()).unwrap_or("").to_string();
+        let driver = st("driver");
+        let id = st("id");
+        if id.is_empty() || id.contains('/') || id.contains("..") {
+            out.skipped = Some("plant_cp: bad id".into());
+            return;
+        }
+        let session = if driver == "router" {
+            if let Err(e) = self.ensure_router() {
+                out.skipped = Some(e);
+                return;
+            }
+            self.router_session.clone().unwrap_or_default()
+        } else {
+            self.session.clone()
+        };
+        if session.is_empty() || session.contains('/') || session.contains("..") {
+            out.skipped = Some("plant_cp: no session".into());
+            return;
+        }
+        let entries: Vec<Value> = step.get("entries").and_then(|x| x.as_array()).cloned().unwrap_or_default();
+        let files: Vec<Value> = entries
+            .iter()
+            .map(|e| json!({"path": e.get("path").cloned().unwrap_or(json!("")), "exists": e.get("exists").cloned().unwrap_or(json!(false)), "sha256": null}))
+            .collect();
+        let manifest = json!({
+            "id": step.get("manifest_id").and_then(|x| x.as_str()).unwrap_or(&id),
+            "session_id": step.get("manifest_session").and_then(|x| x.as_str()).unwrap_or(&session),
+            "label": "planted", "created_at_ms": 1 + i as u64, "files": files,
+        });
+        let rel_dir = format!(".rip/checkpoints/{session}/{id}");
+        let cp_dir = self.root.join(&rel_dir);
+        let body = serde_json::to_string_pretty(&manifest).unwrap_or_default();
+        let via = st("via");
+        let planted = if via == "tool" {
+            let args = json!({"path": format!("{rel_dir}/checkpoint.json"), "content": body});
+            if driver == "router" {
+                let env = json!({"tool": "write", "args": args, "timeout_ms": 20000}).to_string();
+                match self.router_input(env) {
+                    Ok((frames, to)) => {
+                        out.timed_out = to;
+                        frames.iter().any(|f| f.get("type").and_then(|x| x.as_str()) == Some("tool_ended") && f.get("exit_code").and_then(|x| x.as_i64()) == Some(0))
+                    }
+                    Err(e) => {
+                        out.skipped = Some(e);
+                        return;
+                    }
+                }
+            } else {
+                let frames = self.run_tool_runner("write", args);
+                frames.iter().any(|f| f.get("type").and_then(|x| x.as_str()) == Some("tool_ended") && f.get("exit_code").and_then(|x| x.as_i64()) == Some(0))
+            }
+        } else {
+            std::fs::create_dir_all(&cp_dir).is_ok() && std::fs::write(cp_dir.join("checkpoint.json"), body.as_bytes()).is_ok()
+        };
+        // what is on disk must be the manifest we meant to plant
+        out.ok = planted && std::fs::read(cp_dir.join("checkpoint.json")).ok().as_deref() == Some(body.as_bytes());
+        let dot_rip = self.root.join(".rip");
+        let mut stored = 0;
+        for (n, e) in entries.iter().enumerate() {
+            if e.get("stored").and_then(|x| x.as_bool()) != Some(true) {
+                continue;
+            }
+            let p = e.get("path").and_then(|x| x.as_str()).unwrap_or("");
+            if p.is_empty() || p.contains('\0') || Path::new(p).is_absolute() {
+                continue;
+            }
+            let mut dest = cp_dir.join("files");
+            let mut sane = true;
+            for c in Path::new(p).components() {
+                match c {
+                    std::path::Component::Normal(s) => dest.push(s),
+                    std::path::Component::ParentDir => {
+                        dest.pop();
+                    }
+                    std::path::Component::CurDir => {}
+                    _ => sane = false,
+                }
+            }
+            if !sane || !dest.starts_with(&dot_rip) || dest == dot_rip || dest.is_dir() || dest == cp_dir.join("checkpoint.json") {
+                continue;
+            }
+            if let Some(parent) = dest.parent() {
+                let _ = std::fs::create_dir_all(parent);
+            }
+            if std::fs::write(&dest, format!("planted stored copy {i}.{n}\n")).is_ok() {
+                stored += 1;
+            }
+        }
+        out.text = format!("planted {rel_dir} (via {via}), stored copies {stored}");
+        out.cp_meta = Some(manifest);
+        if out.ok {
+            self.cp_session.insert(id.clone(), session);
+            self.step_cp.insert(i, id.clone());
+            out.cp_id = Some(id);
+        }
+    }
+
+    /// Regular files below `.rip/checkpoints` that have a hard link OUTSIDE the store: (st_dev, st_ino) is compared
+    /// with every regular file of the root outside the store, and `st_nlink` with the number of links the store
+    /// itself holds (a partner anywhere else on the file system shows up there). Returns (findings, files checked).
+    fn store_shared_inodes(&self) -> (Vec<Value>, u64) {
+        use std::os::unix::fs::MetadataExt;
+        fn walk(p: &Path, skip: &Path, f: &mut dyn FnMut(&Path, &std::fs::Metadata)) {
+            let Ok(rd) = std::fs::read_dir(p) else {
+                return;
+            };
+            for e in rd.flatten() {
+                let path = e.path();
+                if path == skip {
+                    continue;
+                }
+                let Ok(md) = std::fs::symlink_metadata(&path) else {
+                    continue;
+                };
+                if md.is_dir() {
+                    walk(&path, skip, f);
+                } else if md.is_file() {
+                    f(&path, &md);
+                }
+            }
+        }
+        let store = self.root.join(".rip").join("checkpoints");
+        let mut in_store: Vec<(PathBuf, u64, u64, u64)> = Vec::new();
+        walk(&store, Path::new(""), &mut |p, md| in_store.push((p.to_path_buf(), md.dev(), md.ino(), md.nlink())));
+        let checked = in_store.len() as u64;
+        if in_store.iter().all(|x| x.3 <= 1) {
+            return (Vec::new(), checked);
+        }
+        let mut links_in_store: HashMap<(u64, u64), u64> = HashMap::new();
+        for (_, d, i, _) in &in_store {
+            *links_in_store.entry((*d, *i)).or_insert(0) += 1;
+        }
+        let mut outside: HashMap<(u64, u64), String> = HashMap::new();
+        walk(&self.root, &store, &mut |p, md| {
+            if md.nlink() > 1 {
+                outside.insert((md.dev(), md.ino()), p.strip_prefix(&self.root).unwrap_or(p).to_string_lossy().to_string());
+            }
+        });
+        let mut found = Vec::new();
+        for (p, d, i, nlink) in &in_store {
+            let held = links_in_store.get(&(*d, *i)).copied().unwrap_or(1);
+            if *nlink > held {
+                found.push(json!({
+                    "store_file": p.strip_prefix(&self.root).unwrap_or(p).to_string_lossy(),
+                    "nlink": nlink, "links_inside_store": held,
+                    "workspace_file": outside.get(&(*d, *i)),
+                }));
+            }
+        }
+        (found, checked)
+    }
+
     fn absorb_cp_frames(&mut self, i: usize, out: &mut StepOut, session: &str) {
         for f in &out.frames {
             match f.get("type").and_then(|x| x.as_str()).unwrap_or("") {
@@ -826,6 +1053,43 @@ impl Child {
             }
         }
     }
+}
+
+// ------------------------------------------------------------------------------------------
+// deterministic line-structured content (child and parent expand the same (seed, bytes) spec)
+// ------------------------------------------------------------------------------------------
+
+/// Exactly `bytes` bytes of LF-terminated ASCII lines, every line unique (tag + running number), so that
+/// `apply_patch` Update hunks cut from it apply unambiguously. `bytes == 0` gives an empty file.
+pub fn gen_content(seed: u64, bytes: usize) -> Vec<u8> {
+    let mut out: Vec<u8> = Vec::with_capacity(bytes + 80);
+    let mut n = 0u64;
+    let mut x = seed.wrapping_mul(0x9E37_79B9_7F4A_7C15) | 1;
+    while out.len() < bytes {
+        x ^= x << 13;
+        x ^= x >> 7;
+        x ^= x << 17;
+        let fill = 8 + (x % 48) as usize;
+        let line = format!("g{seed:x} line {n:06} {}\n", "abcdefghijklmnopqrstuvwxyz0123456789ABCDEFGHIJKLMNOPQRSTUVWXYZ".chars().cycle().skip((x % 62) as usize).take(fill).collect::<String>());
+        out.extend_from_slice(line.as_bytes());
+        n += 1;
+    }
+    out.truncate(bytes);
+    let len = out.len();
+    if len >= 1 {
+        out[len - 1] = b'\n';
+    }
+    // a cut that lands right after a line feed would leave an empty last line: keep every line non-empty
+    if len >= 2 && out[len - 2] == b'\n' {
+        out[len - 2] = b'#';
+    }
+    out
+}
+
+pub fn gen_spec_bytes(g: &Value) -> Vec<u8> {
+    let seed = g.get("seed").and_then(|x| x.as_u64()).unwrap_or(0);
+    let bytes = g.get("bytes").and_then(|x| x.as_u64()).unwrap_or(0) as usize;
+    gen_content(seed, bytes)
 }
 
 // ------------------------------------------------------------------------------------------
